@@ -21,12 +21,15 @@
      * interp_is_recursive: the work-list evaluator equals the recursive evaluator on EVERY
        miniscript and stack; [steps m] + 1 iterations always suffice (no INoFuel).
      * interp_sound_partial: the full statement of interp_sound under the two side conditions,
-       for every nesting of every fragment except thresh and the multisig leaves ([icover]);
-       the arithmetic facts about script numbers are the same hypotheses as in C01.
+       for every nesting of every fragment (thresh, multi, multi_a included) except sortedmulti /
+       sortedmulti_a ([icover]), which decoding a script never produces; [iwf] states what the
+       constructors guarantee (lock values, threshold bounds) and the signature version multi /
+       multi_a live in; the arithmetic facts about script numbers ([num_facts]) are the same
+       hypotheses as in C01.
      * the two refutations.
      * interp_policy: proved in full.
-   constraints_exact, interp_complete and the uncovered fragments of interp_sound are checked per
-   run by the oracle (tools/props/c13.py), not proved. *)
+   constraints_exact and interp_complete are checked per run by the oracle (tools/props/c13.py),
+   not proved. *)
 From Verif Require Import Exec Ser Ast Types TypeCheck InterpModel InterpRefine InterpSound InterpRefuted InterpMain InterpPolicy.
 Local Open Scope N_scope.
 
@@ -41,7 +44,7 @@ Theorem interp_sound_partial :
     num_facts -> keys_ok e ke kp ->
     e_sequence e <> SEQ_FINAL -> 2 <= e_txversion e ->
     forall (m : ms) (t : ty) (items : list bytes) (cs : list constr),
-      type_of m = ROk t -> c_base (t_corr t) = BB -> iwf m -> icover m -> items_small items ->
+      type_of m = ROk t -> c_base (t_corr t) = BB -> iwf e m -> icover m -> items_small items ->
       interp e ke kp m (astack_of_items items) = IAccept cs ->
       accepts e (enc ke m) (rev items) = true.
 Proof. exact interp_sound_sidecond. Qed.
@@ -82,7 +85,7 @@ Print Assumptions interp_sound_refuted_version.
 Example C13_nonvacuous :
   keys_ok (toy_env 100 4294967294 2) toy_ke toy_kp /\
   e_sequence (toy_env 100 4294967294 2) <> SEQ_FINAL /\ 2 <= e_txversion (toy_env 100 4294967294 2) /\
-  (exists t, type_of m_after = ROk t /\ c_base (t_corr t) = BB) /\ iwf m_after /\ icover m_after /\
+  (exists t, type_of m_after = ROk t /\ c_base (t_corr t) = BB) /\ iwf (toy_env 100 4294967294 2) m_after /\ icover m_after /\
   items_small [a_sig] /\
   interp (toy_env 100 4294967294 2) toy_ke toy_kp m_after (astack_of_items [a_sig]) = IAccept [CsPk [2; 0] a_sig; CsAfter 10].
 Proof. exact sidecond_nonvacuous. Qed.
